@@ -23,7 +23,8 @@ ALLOCATING = ("NewDoc", "NewPixel", "NewGroup", "GroupLayers")
 STRUCTURAL = ("NewGroup", "GroupLayers", "Append", "Extend", "Insert", "Remove", "Pop", "Clear", "SetItem",
               "DelItem", "DeleteLayer", "MoveToGroup", "MoveUp", "MoveDown")
 SETTERS = ("SetVisible", "SetLeft", "SetTop", "SetClip")
-OBSERVERS = ("ObsBbox", "ObsSize", "ObsRepr", "ObsDesc", "ObsFind", "ObsVisible")
+OBSERVERS = ("ObsBbox", "ObsSize", "ObsRepr", "ObsDesc", "ObsFind", "ObsVisible", "ObsExport")
+EXPORT_KINDS = {0: "topil", 1: "numpy", 2: "composite", 3: "save-to-buffer", 4: "mask/effects/print reads"}
 
 _quiet = False
 
@@ -138,6 +139,7 @@ class World:
         self.mode = mode
         self.depth = depth
         self.dead = False  # after a RecursionError from a list cycle nothing more is applied
+        self.export_errors = []  # exceptions raised by exporting reads (their answers are not compared)
 
     # -- ids
     def reg(self, ob):
@@ -287,7 +289,53 @@ class World:
             return [1 if f is not None else 0, n]
         if k == "ObsVisible":
             return [1 if O[o[1]].is_visible() else 0]
+        if k == "ObsExport":
+            self.export(O[o[1]], o[2])
+            return []
         raise KeyError(k)
+
+    def export(self, ob, kk):
+        """the exporting / printing reads of the property; what they return is not compared here, an
+        exception is remembered (the twin run compares what happens afterwards)"""
+        import contextlib
+
+        try:
+            if kk == 0:
+                ob.topil()
+            elif kk == 1:
+                ob.numpy()
+            elif kk == 2:
+                ob.composite()
+            elif kk == 3:
+                if hasattr(ob, "save"):
+                    ob.save(io.BytesIO())
+                else:
+                    with contextlib.redirect_stdout(io.StringIO()):
+                        print(ob)
+            else:
+                with contextlib.redirect_stdout(io.StringIO()):
+                    print(ob)
+                str(ob)
+                if hasattr(ob, "has_mask"):
+                    ob.has_mask()
+                    _ = ob.mask
+                    ob.has_effects()
+                    list(ob.effects)
+                    ob.has_clip_layers()
+                    ob.has_pixels()
+                else:
+                    ob.has_preview()
+                    _ = ob.viewbox
+                    class _P:  # IPython pretty printer protocol
+                        def text(self, t): pass
+                        def break_(self): pass
+                        def pretty(self, o): pass
+                        def indent(self, n): return contextlib.nullcontext()
+                    ob._repr_pretty_(_P(), False)
+        except RecursionError as e:
+            self.export_errors.append("RecursionError")
+        except Exception as e:  # noqa
+            self.export_errors.append(type(e).__name__)
 
     # -- the canonical state (mirror of Edit.Model.print_state)
     def obj_fields(self, i):
@@ -308,7 +356,7 @@ class World:
         return dict(kind=kd, parent=parent, psd=psd, vis=vis, rect=tuple(int(v) for v in rect), cache=cache,
                     clipf=clipf, dirty=dirty, clips=clips, kids=kids)
 
-    def print_state(self):
+    def print_state(self, nc=False):
         if self.dead:
             return [-1]
         out = [len(self.objs)]
@@ -316,7 +364,8 @@ class World:
             f = self.obj_fields(i)
             out += [f["kind"], 0 if f["parent"] is None else f["parent"] + 1, 0 if f["psd"] is None else f["psd"] + 1, f["vis"]]
             out += list(f["rect"])
-            out += [0, 0, 0, 0, 0] if f["cache"] is None else [1] + [int(v) for v in f["cache"]]
+            if not nc:
+                out += [0, 0, 0, 0, 0] if f["cache"] is None else [1] + [int(v) for v in f["cache"]]
             out += [f["clipf"], f["dirty"], len(f["clips"])] + f["clips"]
             out += [len(f["kids"])] + f["kids"]
         return out
@@ -344,7 +393,7 @@ def step_digest(out, state):
     return h63_list(h63_list(0, out), state)
 
 
-def run_case(case, hooks=(), mode="RGB", depth=8):
+def run_case(case, hooks=(), mode="RGB", depth=8, nc=False):
     """run scene + history on a fresh World; returns (world, [step digests], [outs]).
     hooks: callables (world, index_in_history or -1 for scene steps, op, out, before) called after each step;
     `before` is whatever hook.pre(world, op) returned (or None)."""
@@ -355,7 +404,7 @@ def run_case(case, hooks=(), mode="RGB", depth=8):
     for n, o in enumerate(list(scene) + list(ops)):
         pres = [h.pre(w, o) if hasattr(h, "pre") else None for h in hooks]
         out = w.apply(o)
-        ds.append(step_digest(out, w.print_state()))
+        ds.append(step_digest(out, w.print_state(nc)))
         outs.append(out)
         for h, p in zip(hooks, pres):
             h(w, n - len(scene), o, out, p)
@@ -431,6 +480,8 @@ def ops_for(kinds, fam, pos=(-3, -2, -1, 0, 1, 2, 3), offs=(-2, -1, 0, 1, 2), pa
         out += [("ObsFind", g, x) for g in conts for x in layers]
     if "ObsVisible" in fam:
         out += [("ObsVisible", x) for x in range(n)]
+    if "ObsExport" in fam:
+        out += [("ObsExport", x, k) for x in range(n) for k in range(5)]
     return out
 
 
@@ -475,6 +526,8 @@ def random_op(rng, kinds, fam, pos=(-3, -2, -1, 0, 1, 2, 3, 7), offs=(-3, -2, -1
             return (f, x, rng.randint(-2, 6))
         if f in ("ObsBbox", "ObsSize", "ObsRepr", "ObsVisible"):
             return (f, rng.randrange(n))
+        if f == "ObsExport":
+            return (f, rng.choice(docs) if docs and rng.random() < 0.6 else rng.randrange(n), rng.randrange(5))
         if f == "ObsFind":
             return (f, g, x)
     return ("NewDoc", 8, 8)
@@ -807,8 +860,8 @@ def cfg_lit():
     return "(mkCfg %s %s %s %s %s)" % tuple("true" if v else "false" for v in code_variant())
 
 
-def digest_fn():
-    return "run_digest_v %s" % cfg_lit()
+def digest_fn(nc=False):
+    return "%s %s" % ("run_digest_nc_v" if nc else "run_digest_v", cfg_lit())
 
 
 def model_full(ck, case, tag="dbg"):
